@@ -252,8 +252,18 @@ G3IdBesideRef ==
     properties |-> [a |-> [ref |-> LocalRef(FragName("foo"))]]],
    [definitions |-> [a |-> [items |-> [id |-> IdFrag("foo"), ref |-> LocalRef(PtrDefn("str"))]], b |-> [id |-> IdFrag("foo")] @@ IntS, str |-> StrS],
     items |-> [ref |-> LocalRef(FragName("foo"))]]}
+\* a subschema {"$ref": X, "not": {}} only LOOKS like the false schema: under draft-07 it is X, wherever it stands
+G3FalsyLooking ==
+  LET FR == [ref |-> LocalRef(PtrDefn("x")), not |-> TrueS]
+  IN UNION {{[definitions |-> [x |-> d], itemsArray |-> <<TrueS>>, additionalItems |-> FR],
+             [definitions |-> [x |-> d], additionalProperties |-> FR],
+             [definitions |-> [x |-> d], additionalProperties |-> FR, properties |-> [a |-> TrueS]],
+             [definitions |-> [x |-> d], items |-> FR], [definitions |-> [x |-> d], contains |-> FR],
+             [definitions |-> [x |-> d], properties |-> [a |-> FR]], [definitions |-> [x |-> d], not |-> FR],
+             [definitions |-> [x |-> d], depSchemas |-> [a |-> FR]], [definitions |-> [x |-> d], propertyNames |-> FR],
+             [definitions |-> [x |-> d], itemsArray |-> <<FR, FR>>]} : d \in {IntS, StrS}}
 G3Docs(z) ==
-  G3IdBesideRef \cup
+  G3IdBesideRef \cup G3FalsyLooking \cup
   {[definitions |-> [x |-> d], ref |-> LocalRef(PtrDefn("x"))] @@ sib : d \in DefPool, sib \in G3Sibs}
   \cup {[definitions |-> [x |-> d], properties |-> [a |-> [ref |-> LocalRef(PtrDefn("x"))] @@ sib]] : d \in {IntS, FalseS}, sib \in G3Sibs}
   \cup {[definitions |-> [x |-> d @@ [id |-> IdFrag("foo")]], ref |-> LocalRef(FragName("foo"))] : d \in DefPool \ {FalseS}}
@@ -266,6 +276,8 @@ G3Docs(z) ==
         [definitions |-> [x |-> [id |-> IdFrag("foo"), properties |-> [a |-> [ref |-> LocalRef(FragName("foo"))], v |-> IntS]]],
          properties |-> [a |-> [ref |-> LocalRef(FragName("foo"))]]]}
 G3Vals == F5Vals \cup {Obj([a |-> x]) : x \in {Num(R_1), Str("a")}} \cup {Obj([zz |-> Num(R_1)])}
+          \cup {Arr(<<Str("a"), Num(R_1)>>), Arr(<<Num(R_1), Num(R_1)>>), Arr(<<Str("a"), Str("a")>>), Arr(<<Num(R_1)>>), EmptyArr,
+                Obj([b |-> Num(R_1)]), Obj([b |-> Str("a")]), Obj([a |-> Num(R_1), b |-> Str("a")])}
 
 
 \* ------------------------------------------------------------ DY $dynamicRef (C06)
